@@ -84,6 +84,10 @@ def Sec.ok : Sec → Bool
   | .idx _ => true
   | .anc a => okName a
 
+def Sec.isAnc : Sec → Bool
+  | .anc _ => true
+  | _ => false
+
 def Sec.lseg : Sec → LSeg
   | .key t => .key (secToks '.' t)
   | .idx i => .index i
